@@ -443,6 +443,86 @@ func (e *Engine) initStubs() {
 	e.stub("reflect.TypeOf", poison)
 	e.stub("reflect.ValueOf", poison)
 
+	// ---- encoding/json contract stub (C16) -------------------------------------
+	e.stub("(*encoding/json.Decoder).Decode", func(e *Engine, st *State, th *Thread, c *callCtx) Value {
+		helper := e.vrt.Func("jsonDecode")
+		if helper == nil {
+			panic(&Unsupported{"vrt.jsonDecode missing"})
+		}
+		dec := c.args[0].(Ptr)
+		dt := deref(c.fn.Params[0].Type()).Underlying().(*types.Struct)
+		var r Value
+		useNumber, disallow := tb.False, tb.False
+		root := loadPath(st.obj(dec.Obj).V, dec.Path).(*StructV)
+		for i := 0; i < dt.NumFields(); i++ {
+			switch dt.Field(i).Name() {
+			case "r":
+				r = root.F[i]
+			case "d":
+				ds := root.F[i].(*StructV)
+				dst := dt.Field(i).Type().Underlying().(*types.Struct)
+				for j := 0; j < dst.NumFields(); j++ {
+					switch dst.Field(j).Name() {
+					case "useNumber":
+						useNumber = ds.F[j].(*Term)
+					case "disallowUnknownFields":
+						disallow = ds.F[j].(*Term)
+					}
+				}
+			}
+		}
+		if c.instr == nil {
+			panic(&Unsupported{"deferred json Decode"})
+		}
+		e.pushFrame(st, th, helper, nil, []Value{r, useNumber, disallow, c.args[1]}, false)
+		c.pushed = true
+		return nil
+	})
+	e.stub(V+"jsonParse", func(e *Engine, st *State, th *Thread, c *callCtx) Value {
+		arr, off, ln := e.bytesOf(st, c.args[0])
+		ok := e.freshVar(st, th, 0, "jsonok")
+		st.logNondet(NondetRec{Kind: "bool", T: ok})
+		id := st.newObj(&Object{Kind: OMap, Harness: true, Site: "json model"})
+		o := st.Heap[id]
+		str := func(s string) Value { return StrV{Arr: tb.ArrLit(s), Off: tb.Int64(0), Len: tb.Int64(int64(len(s)))} }
+		strT := types.Typ[types.String]
+		boolT := types.Typ[types.Bool]
+		o.Keys = []Value{str("__frame__"), str("__useNumber__"), str("__disallow__")}
+		o.Vals = []Value{IfaceV{T: strT, V: StrV{Arr: arr, Off: off, Len: ln}}, IfaceV{T: boolT, V: c.args[1]}, IfaceV{T: boolT, V: c.args[2]}}
+		return TupleV{MapV{Obj: id}, ok}
+	})
+	e.stub("encoding/json.Marshal", func(e *Engine, st *State, th *Thread, c *callCtx) Value {
+		ok := e.freshVar(st, th, 0, "marshalok")
+		st.logNondet(NondetRec{Kind: "bool", T: ok})
+		st.JSONLastArg = c.args[0]
+		if !e.decide(st, ok) {
+			st.JSONLastMarshal = nil
+			et := e.namedType("errors", "errorString")
+			msg := "json: unsupported value"
+			eid := e.allocCells(st, et, &StructV{F: []Value{StrV{Arr: tb.ArrLit(msg), Off: tb.Int64(0), Len: tb.Int64(int64(len(msg)))}}})
+			return TupleV{SliceV{Off: tb.Int64(0), Len: tb.Int64(0), Cap: tb.Int64(0)}, IfaceV{T: types.NewPointer(et), V: Ptr{Obj: eid}}}
+		}
+		n := e.freshVar(st, th, 64, "marshallen")
+		st.PC = tb.And(st.PC, tb.And(tb.SLe(tb.Int64(2), n), tb.SLe(n, tb.Int64(4096))))
+		name := e.freshVar(st, th, 8, "marshal").Name
+		id := e.allocBytes(st, tb.ArrSym(name), n)
+		sv := SliceV{Obj: id, Off: tb.Int64(0), Len: n, Cap: n}
+		st.JSONLastMarshal = sv
+		return TupleV{sv, IfaceV{}}
+	})
+	e.stub(V+"JSONLastMarshal", func(e *Engine, st *State, th *Thread, c *callCtx) Value {
+		if st.JSONLastMarshal == nil {
+			return SliceV{Off: tb.Int64(0), Len: tb.Int64(0), Cap: tb.Int64(0)}
+		}
+		return st.JSONLastMarshal
+	})
+	e.stub(V+"JSONLastArg", func(e *Engine, st *State, th *Thread, c *callCtx) Value {
+		if st.JSONLastArg == nil {
+			return IfaceV{}
+		}
+		return st.JSONLastArg
+	})
+
 	// ---- time -------------------------------------------------------------------
 	e.initTimeStubs()
 }
